@@ -235,3 +235,51 @@ def flat_function(fi, depth=2, stop=()):
             fi.module.parents[ch] = parent
     fi.module.parents[flat] = fi.module.parents.get(fi.node)
     return g
+
+
+def shared_field_objects(rep, rule, ci, allowed=(), what='state'):
+    """One mutable object bound to two fields.  In every method of class `ci`: a local that visibly holds a fresh mutable object (an array
+    constructor / copy / slice view, a tm, a list / dict display or comprehension) and is stored into two different fields of self, or the
+    object of one field stored into another field, without a copy in between.  In-place updates of one field then change the other.
+    `allowed`: {(method, frozenset of fields)} confirmed harmless by reading.  -> number of field stores examined"""
+    import ast as _ast
+    from ..engine.model import walk_own, src
+    n = 0
+
+    def mutable_value(v):
+        if isinstance(v, (_ast.List, _ast.Dict, _ast.Set, _ast.ListComp, _ast.DictComp, _ast.SetComp)):
+            return True
+        if isinstance(v, _ast.Call):
+            f = v.func
+            tail = f.attr if isinstance(f, _ast.Attribute) else (f.id if isinstance(f, _ast.Name) else '')
+            recv_np = isinstance(f, _ast.Attribute) and isinstance(f.value, _ast.Name) and f.value.id in ('np', 'numpy')
+            return recv_np or tail in ('copy', 'deepcopy', 'tm', 'Wrench', 'Screw', 'list', 'dict', 'set', 'reshape', 'transpose', 'flatten')
+        if isinstance(v, _ast.Subscript):
+            return isinstance(v.value, _ast.Attribute) and isinstance(v.value.value, _ast.Name) and v.value.value.id == 'self'
+        return False
+    for name, fi in sorted(ci.methods.items()):
+        defs = {}
+        for st in walk_own(fi.node):
+            if isinstance(st, _ast.Assign) and len(st.targets) == 1 and isinstance(st.targets[0], _ast.Name):
+                defs.setdefault(st.targets[0].id, []).append(st.value)
+        bound = {}
+        for st in walk_own(fi.node):
+            if not isinstance(st, _ast.Assign):
+                continue
+            for t in st.targets:
+                if isinstance(t, _ast.Attribute) and isinstance(t.value, _ast.Name) and t.value.id == 'self':
+                    v = st.value
+                    n += 1
+                    if isinstance(v, _ast.Name) and defs.get(v.id) and all(mutable_value(d_) for d_ in defs[v.id]):
+                        bound.setdefault(v.id, []).append((t.attr, st.lineno))
+                    elif isinstance(v, _ast.Attribute) and isinstance(v.value, _ast.Name) and v.value.id == 'self' and v.attr != t.attr:
+                        bound.setdefault('self.' + v.attr, [(v.attr, st.lineno)]).append((t.attr, st.lineno))
+        for key, fields in sorted(bound.items()):
+            fs = frozenset(f_ for f_, _l in fields)
+            if len(fs) < 2 or (name, fs) in allowed:
+                continue
+            rep.ob(rule, fi, '%s.%s: `%s` bound to one field only' % (ci.name, name, key), False,
+                   'the object `%s` is stored in the fields %s without a copy: they are now one object, and an in-place update of either (an element '
+                   'store, a kernel that fills a buffer, a mutating method) silently changes the other piece of %s' % (key, sorted(fs), what),
+                   line=fields[-1][1])
+    return n
